@@ -88,15 +88,6 @@ abbrev Store := Var → Val
 
 def Store.set (σ : Store) (x : Var) (v : Val) : Store := fun y => if y = x then v else σ y
 
-/-- The discriminant of an enum value (`Some` = 0, `None` = 1; `Accept` = 0, `Reject` = 1). -/
-def discOf : Val → Option Nat
-  | .opt (some _) => some 0
-  | .opt none => some 1
-  | .enm k _ => some k
-  | .verdict true _ => some 0
-  | .verdict false _ => some 1
-  | _ => none
-
 /-- Field `i` of an aggregate value. -/
 def payload : Val → Nat → Option Int
   | .opt (some v), 0 => some v
